@@ -5,10 +5,10 @@ CONSTANTS
   Catalog <- Cat6
   Comp <- NoComp
   UseComp = FALSE
-  MaxRx = 3
+  MaxRx = 2
   AllowDup = FALSE
-  Modes <- Modes_Two
-  MaxSys = 2
+  Modes <- Modes_One
+  MaxSys = 1
   MaxOps = 2
   Preds <- Preds_Few
   QueryKinds <- Q_None
